@@ -38,6 +38,18 @@ Print Assumptions C08_raw_add_normal_refuted.
 Theorem C08_powmod_every_exponent_partial : forall T (D : Dom T), FieldOK D -> PowmodCong_stmt D.
 Proof. exact (@PowmodCong_ok). Qed.
 Print Assumptions C08_powmod_every_exponent_partial.
+Theorem C08_sqr_eq_schoolbook_square : forall T (D : Dom T), FieldOK D -> Sqr_stmt D.
+Proof. exact (@Sqr_ok). Qed.
+Print Assumptions C08_sqr_eq_schoolbook_square.
+Theorem C08_newton_inverse_mod_power_of_X : forall T (D : Dom T), FieldOK D -> Newton_stmt D.
+Proof. exact (@Newton_ok). Qed.
+Print Assumptions C08_newton_inverse_mod_power_of_X.
+Theorem C08_gcd_divides_partial : forall T (D : Dom T), FieldOK D -> GcdDivides_stmt D.
+Proof. exact (@GcdDivides_ok). Qed.
+Print Assumptions C08_gcd_divides_partial.
+Theorem C08_lcm_common_multiple_partial : forall T (D : Dom T), FieldOK D -> LcmMultiple_stmt D.
+Proof. exact (@LcmMultiple_ok). Qed.
+Print Assumptions C08_lcm_common_multiple_partial.
 Theorem C08_hypotheses_satisfiable : FieldOK GF2Dom.
 Proof. exact GF2_ok. Qed.
 Print Assumptions C08_hypotheses_satisfiable.
